@@ -1,9 +1,188 @@
-//! stub
-use super::Ctx;
-use crate::engine::evidence::{Case, Report, Verdict};
-pub fn run(_ctx: &Ctx, _rep: &mut Report) {
-    crate::engine::monitor::machinery_fail("not implemented");
+//! C11 - numeric card order is rank-then-suit; sorting is a descending rearrangement.
+//!
+//! Spaces: all 52 x 52 card pairs (+ blank below every card); sorting: all tuples of sizes 2..7 over an 8-word
+//! alphabet {0, 23, deuce of clubs, a mid card, ace of spades, a pair-flagged card, 2^31, 2^32-1}, which realises
+//! EVERY weak ordering of up to 7 slots (the sort is a comparison sort, so its behaviour is determined by the
+//! order pattern) with duplicates, blanks and non-card words; thorough adds all tuples over 12 words for sizes
+//! <= 6 and all card tuples (52^k) for k <= 4.
+//! Oracle: output multiset = input multiset, non-increasing, idempotent, copying form == in-place form.
+use super::hands::AnyHand;
+use super::{confirm, sample_json, Ctx};
+use crate::engine::enumerate::{par_parts, tuple_decode};
+use crate::engine::evidence::{Acc, Case, Report, Verdict};
+use crate::engine::monitor::{self, guard};
+use crate::oracle::cards::{deck, show_words, sigma53, word_to_card};
+use std::time::Instant;
+
+/// Case kinds: "order" [word a, word b] (cards or blank); "<size>.sort" [words].
+pub fn judge(case: &Case) -> Verdict {
+    let w = case.w32s();
+    if case.kind == "order" {
+        if w.len() != 2 {
+            return Verdict::NotJudged("two words".into());
+        }
+        let key = |x: u32| -> Option<(i32, i32)> {
+            if x == 0 {
+                Some((-1, -1))
+            } else {
+                word_to_card(x).map(|c| (c.rank() as i32, c.suit() as i32))
+            }
+        };
+        return match (key(w[0]), key(w[1])) {
+            (Some(a), Some(b)) => {
+                let exp = a.cmp(&b);
+                let got = w[0].cmp(&w[1]);
+                if exp == got {
+                    Verdict::Holds
+                } else {
+                    Verdict::Violated { class: "integer-order-not-rank-then-suit".into(), expected: format!("{:?} for {} vs {}", exp, show_words(&w[..1]), show_words(&w[1..])), observed: format!("{:?}", got) }
+                }
+            }
+            _ => Verdict::NotJudged("order clause is about cards and blank".into()),
+        };
+    }
+    let (size, what) = match case.kind.split_once('.') {
+        Some(x) => x,
+        None => return Verdict::NotJudged("bad kind".into()),
+    };
+    if what != "sort" || AnyHand::size_of_name(size) != Some(w.len()) {
+        return Verdict::NotJudged("bad kind".into());
+    }
+    let mut exp = w.clone();
+    exp.sort_unstable_by(|a, b| b.cmp(a));
+    match guard(|| {
+        let h = AnyHand::from_words(&w);
+        let s = h.sort();
+        (s.to_vec(), h.sort_in_place().to_vec(), s.sort().to_vec(), h.to_vec())
+    }) {
+        Err(p) => Verdict::Violated { class: format!("panic:{}", case.kind), expected: format!("{:?}", exp), observed: format!("panic: {}", p) },
+        Ok((s, ip, ss, orig)) => {
+            let mut problems = Vec::new();
+            let mut ms = s.clone();
+            ms.sort_unstable_by(|a, b| b.cmp(a));
+            if ms != exp {
+                problems.push("not-a-rearrangement");
+            }
+            if !s.windows(2).all(|x| x[0] >= x[1]) {
+                problems.push("not-descending");
+            }
+            if ip != s {
+                problems.push("in-place-differs");
+            }
+            if ss != s {
+                problems.push("not-idempotent");
+            }
+            if orig != w {
+                problems.push("copying-sort-mutated-input");
+            }
+            if problems.is_empty() {
+                Verdict::Holds
+            } else {
+                Verdict::Violated { class: format!("{}:{}", case.kind, problems.join("+")), expected: format!("{:?} for input {:?}", exp, w), observed: format!("sort {:?} sort_in_place {:?} sort(sort) {:?}", s, ip, ss) }
+            }
+        }
+    }
 }
-pub fn judge(_case: &Case) -> Verdict {
-    Verdict::NotJudged("not implemented".into())
+
+#[inline]
+fn check_sort(acc: &mut Acc, w: &[u32]) {
+    let n = w.len();
+    acc.cases += 1;
+    acc.calls += 3;
+    let ok = match guard(|| {
+        let h = AnyHand::from_words(w);
+        let s = h.sort();
+        (s, h.sort_in_place(), s.sort())
+    }) {
+        Ok((s, ip, ss)) => {
+            let mut out = [0u32; 7];
+            s.write_to(&mut out[..n]);
+            let mut exp = [0u32; 7];
+            exp[..n].copy_from_slice(w);
+            exp[..n].sort_unstable_by(|a, b| b.cmp(a));
+            out[..n] == exp[..n] && ip == s && ss == s
+        }
+        Err(_) => false,
+    };
+    let distinct_pattern = (1..n).any(|i| w[i] > w[i - 1]);
+    if distinct_pattern {
+        acc.nontrivial += 1; // not already non-increasing
+    }
+    if !ok {
+        match confirm(judge, Case::w32(&format!("{}.sort", AnyHand::size_name(n)), w)) {
+            Some(v) => acc.violate(v),
+            None => monitor::machinery_fail(&format!("C11 sort mismatch on {:?} not reproduced", w)),
+        }
+    }
+}
+
+fn tuples_space(rep: &mut Report, al: &[u32], n: usize, label: &str) {
+    let kind = monitor::kind_id("sort");
+    let t0 = Instant::now();
+    let total = (al.len() as u64).pow(n as u32);
+    let nparts = 64.min(total as usize).max(1);
+    let accs = par_parts(nparts, |p| {
+        let mut acc = Acc::new(1);
+        let mut idx = vec![0usize; n];
+        let mut w = vec![0u32; n];
+        for t in (total * p as u64 / nparts as u64)..(total * (p as u64 + 1) / nparts as u64) {
+            tuple_decode(t, al.len() as u64, &mut idx);
+            for i in 0..n {
+                w[i] = al[idx[i]];
+            }
+            if t % 4096 == 0 {
+                monitor::beat(kind, &[n as u64, t]);
+            }
+            check_sort(&mut acc, &w);
+        }
+        acc
+    });
+    let acc = Acc::merged(accs);
+    rep.add_space(&format!("sort: all {}^{} tuples over {}, size {}", al.len(), n, label, n), &acc, t0, "");
+}
+
+pub fn run(ctx: &Ctx, rep: &mut Report) {
+    let d = deck();
+    // order clause
+    {
+        let t0 = Instant::now();
+        let mut acc = Acc::new(1);
+        for i in 0..53 {
+            for j in 0..53 {
+                acc.cases += 1;
+                acc.calls += 1;
+                if i != j {
+                    acc.nontrivial += 1;
+                }
+                if let Some(v) = confirm(judge, Case::w32("order", &[sigma53(i), sigma53(j)])) {
+                    acc.violate(v);
+                }
+            }
+        }
+        rep.add_space("integer order of all 53 x 53 pairs over {52 cards, blank}", &acc, t0, "rank first (ace high), then suit S > H > D > C; blank below every card");
+    }
+    let mid = d[(20 + ctx.seed as usize) % 52].word();
+    let mid2 = d[(33 + ctx.seed as usize * 7) % 52].word();
+    let al8 = [0u32, 23, d[51].word(), mid, d[0].word(), mid2 | (1 << 29), 0x8000_0000, u32::MAX];
+    for n in 2..=7 {
+        tuples_space(rep, &al8, n, "the 8-word alphabet");
+    }
+    rep.sample(sample_json("seven.sort", &show_words(&[al8[3], al8[0], al8[7], al8[2], al8[3], al8[5], al8[4]]), &format!("{:?}", AnyHand::from_words(&[al8[3], al8[0], al8[7], al8[2], al8[3], al8[5], al8[4]]).sort().to_vec())));
+    if ctx.tier.thorough() {
+        let al12 = [0u32, 1, 23, d[51].word(), d[50].word(), mid, d[13].word(), d[0].word(), mid2 | (1 << 29), d[0].word() | (1 << 30), 0x8000_0000, u32::MAX];
+        for n in 2..=6 {
+            tuples_space(rep, &al12, n, "the 12-word alphabet");
+        }
+        let cards: Vec<u32> = d.iter().map(|c| c.word()).collect();
+        for n in 2..=4 {
+            tuples_space(rep, &cards, n, "the 52 cards");
+        }
+    }
+    rep.rule = "distinct ordered word arrays; non-trivial = arrays that are not already non-increasing (the sort has to move something)".into();
+    rep.bound = if ctx.tier.thorough() {
+        "order clause complete; sorting: every weak ordering of <= 7 slots over 8 words, all tuples over 12 words (n <= 6), all card tuples (n <= 4); other word values are covered only through their order pattern".into()
+    } else {
+        "order clause complete; sorting: every weak ordering of <= 7 slots realised over an 8-word alphabet".into()
+    };
+    rep.assume("the sort is a comparison sort on the integer order, so its behaviour depends on the words only through their weak-order pattern");
 }
